@@ -41,11 +41,8 @@ GUARDED_EXCEPTIONS = {
 
 
 # may-panic calls tolerated while the mutex is held, with reason
-NOPANIC_EXCEPTIONS = {
-    "janet_chan_unpack": "unmarshals a buffer that janet_chan_pack produced with the same flags; for every value the "
-                         "in-tree marshaller accepts the in-tree unmarshaller has no raising path (abstract types of "
-                         "the core are registered in every thread); its error return is asserted by the callers",
-}
+NOPANIC_EXCEPTIONS = {}
+BLOCKING_HANDOFF = ("janet_ev_post_event",)
 PROCESS_EXIT = ("abort", "exit", "_exit", "__assert_fail", "_Exit")
 
 
@@ -97,6 +94,8 @@ class LockAnalysis(object):
 
         IN, OUT = flow.forward(fn, frozenset([entry_held]), transfer, lambda a, b: a | b)
         rets, nrs, panics, states, retblocks = set(), [], [], {}, []
+        self.held_calls = getattr(self, "held_calls", {})
+        self.held_calls[fn.name] = 0
         for b, st in IN.items():
             blk = fn.blocks[b]
             for n in blk.elems:
@@ -105,9 +104,11 @@ class LockAnalysis(object):
                     if self.prog.is_noreturn(n.callee or ""):
                         if n.callee not in PROCESS_EXIT:
                             nrs.append((n, st))
-                    elif n.callee not in (LOCK, UNLOCK) and n.callee not in self.lockfn_names and \
-                            S.call_in(fn, n, S.may_panic):
-                        panics.append((n, st))
+                    elif n.callee not in (LOCK, UNLOCK) and n.callee not in self.lockfn_names:
+                        if any(x > 0 for x in st):
+                            self.held_calls[fn.name] += 1
+                        if S.call_in(fn, n, S.may_panic):
+                            panics.append((n, st))
                 st = transfer(st, n)
             if fn.exit in blk.succs and not blk.noreturn:
                 rets |= st
@@ -181,6 +182,11 @@ def _lock_rules(chk, prog, S):
             else:
                 chk.ok(rule, "%s: %s with nothing held" % (fn.name, n.text()[:40]))
         seen = set()
+        raising_held = sum(1 for (n, st) in r["panics"] if any(x > 0 for x in st))
+        quiet = LA.held_calls.get(fn.name, 0) - raising_held
+        if quiet > 0:
+            chk.instance(rule2, quiet)
+            chk.ok(rule2, "%s: %d call(s) made with the mutex held cannot raise" % (fn.name, quiet), n=quiet)
         for (n, st) in r["panics"]:
             if not any(x > 0 for x in st):
                 continue
@@ -213,6 +219,30 @@ def _lock_rules(chk, prog, S):
                     chk.violation(rule, "ev.c", fn.name, "call:%s" % n.callee, n.loc,
                                   "%s is entered without the channel mutex held on some path" % n.callee)
     chk.floor(rule, 20)
+    # nothing that can block for an unbounded time while the mutex is held: posting to another thread's self-pipe is a
+    # blocking write, and the thread that has to drain that pipe needs this very mutex in its callback
+    rule3 = "C08-NOBLOCK"
+    chk.rule(rule3, "no blocking hand-off (a write to another thread's self-pipe) is made while the channel mutex is held")
+    nb = 0
+    for fn in order:
+        if fn.name == "cfun_channel_choice":
+            continue
+        r = results[fn.name]
+        k = 0
+        for n in fn.calls():
+            if n.callee in BLOCKING_HANDOFF and n.id in r["states"]:
+                k += 1
+                nb += 1
+                chk.instance(rule3)
+                if any(x >= 1 for x in r["states"][n.id]):
+                    chk.violation(rule3, "ev.c", fn.name, "%s#%d" % (n.callee, k), n.loc,
+                                  "`%s` writes to the target thread's self-pipe with the channel mutex held (held=%s); when that pipe "
+                                  "is full the write blocks, and the target thread cannot drain it because its janet_thread_chan_cb is "
+                                  "waiting for this mutex: both threads hang" % (n.text()[:50], sorted(r["states"][n.id])))
+                else:
+                    chk.ok(rule3, "%s: %s with nothing held" % (fn.name, n.text()[:40]))
+    if nb < 4:
+        raise AnalysisBroken("only %d cross-thread hand-off sites found in the channel code" % nb)
     _choice_rule(chk, prog, S, LA)
     return LA, results
 
@@ -733,7 +763,7 @@ def _payload_rule(chk, prog):
         if r is not None and is_ref(r) and r.name in READS and op == "==":
             return st | {"read"}
         return st
-    IN, OUT, T = flow.forward_paths(fn, frozenset(), transfer, edge=edge)
+    IN, OUT, T = flow.forward_paths(fn, frozenset(), transfer, edge=edge, cap=1024)
     n = 0
     for b, kind in flow.exits(fn):
         if b.id not in OUT:
@@ -750,8 +780,9 @@ def _payload_rule(chk, prog):
                           "`%s`: when the addressed reader has moved on and nobody else waits, the value that was sent is dropped" % pay)
         else:
             chk.ok(rule, "janet_thread_chan_cb: every read path consumes `%s`" % pay)
-    if n < 2:
-        raise AnalysisBroken("janet_thread_chan_cb: read paths not recognised (%d)" % n)
+    mode_tests = sum(1 for x in fn.nodes if x.k == "bin" and x.op == "==" and any(is_ref(y) and y.name in READS for y in x.walk()))
+    if n < 1 or mode_tests < 2:
+        raise AnalysisBroken("janet_thread_chan_cb: read paths not recognised (%d path classes, %d mode tests)" % (n, mode_tests))
 
 
 def _recursive_rule(chk, prog):
@@ -798,3 +829,160 @@ def run(chk):   # noqa
     _parkroot_rule(chk, prog)
     _payload_rule(chk, prog)
     _recursive_rule(chk, prog)
+    _sweepreset_rule(chk, prog)
+    _supervisor_rule(chk, prog)
+    _threadflag_rule(chk, prog)
+    _withdraw_rule(chk, prog)
+
+
+def _sweepreset_rule(chk, prog):
+    """Each thread keeps a table shared-abstract -> visited.  janet_mark_abstract sets the entry to true; janet_sweep
+    drops the thread's reference for entries still false.  For that to work the next time round, the sweep has to put
+    every SURVIVING entry back to false - unconditionally, not only on the branch that removes an entry."""
+    rule = "C08-SWEEPRESET"
+    chk.rule(rule, "janet_sweep resets the visited flag of every surviving shared-abstract entry (a reset not conditional on the flag itself)")
+    fn = prog.need_func("janet_sweep", "gc.c")
+    chk.analysed(fn)
+    from jv.util import wraps
+    stores = [x for x in fn.nodes if x.k == "asg" and x.op == "=" and x.kids[0].k == "mem" and x.kids[0].field == "value"
+              and x.kids[0].kids and strip_casts(x.kids[0].kids[0]).k == "sub" and wraps(x.kids[1], "janet_wrap_false")]
+    if not stores:
+        raise AnalysisBroken("janet_sweep: no store of false into a threaded-abstract entry found")
+    # control dependence read off the (structured) syntax tree: a store is conditional on the flag when an enclosing
+    # if / conditional tests the entry's value
+    uncond = []
+    for x in stores:
+        dep = False
+        p_ = x.parent
+        while p_ is not None:
+            if p_.k in ("if", "cond", "while") and p_.kids and p_.kids[0] is not None and \
+                    any(y.k == "mem" and y.field == "value" for y in p_.kids[0].walk()):
+                dep = True
+            p_ = p_.parent
+        if not dep:
+            uncond.append(x)
+    chk.instance(rule)
+    if uncond:
+        chk.ok(rule, "janet_sweep: `%s` at %s runs for every entry that stays in the table" % (uncond[0].text()[:40], uncond[0].loc))
+    else:
+        chk.violation(rule, "gc.c", "janet_sweep", "visited-reset", stores[0].loc,
+                      "every store of false into an entry's visited flag is under a test of that same flag (only entries being removed "
+                      "are reset): an entry marked once stays `visited` for ever, later sweeps never drop this thread's reference and "
+                      "the shared object is never released")
+
+
+def _supervisor_rule(chk, prog):
+    rule = "C08-SUPERVISOR"
+    chk.rule(rule, "the thread body attaches the supervisor channel to the fiber it runs on every path to scheduling it")
+    fn = next((f for f in prog.all_funcs() if f.name == "janet_go_thread_subr"), None)
+    if fn is None:
+        raise AnalysisBroken("janet_go_thread_subr not found")
+    chk.analysed(fn)
+
+    def transfer(st, x):
+        if x.k == "asg" and x.op == "=" and x.kids[0].k == "mem" and x.kids[0].field == "supervisor_channel":
+            rhs = strip_casts(x.kids[1])
+            if rhs.k == "mem" and rhs.field == "user":
+                return st | frozenset(["sup"])
+        return st
+    IN, OUT = flow.forward(fn, frozenset(), transfer, lambda a, b: a & b)
+    n = 0
+    for x, st in flow.states_at(fn, IN, transfer):
+        if x.k == "call" and x.callee in ("janet_schedule", "janet_schedule_signal", "janet_schedule_soon"):
+            n += 1
+            chk.instance(rule)
+            if "sup" in st:
+                chk.ok(rule, "janet_go_thread_subr: supervisor channel attached before `%s`" % x.text()[:40])
+            else:
+                chk.violation(rule, "ev.c", fn.name, "supervisor", x.loc,
+                              "`%s` is reached on a path that has not stored janet_vm.user into fiber->supervisor_channel: what that "
+                              "fiber reports (its result, its error) never reaches the supervisor channel given to ev/thread" % x.text()[:40])
+    if n == 0:
+        raise AnalysisBroken("janet_go_thread_subr: no scheduling call found")
+
+
+def _threadflag_rule(chk, prog):
+    """Whether a channel locks and copies its values is decided by its is_threaded field, while whether it can be
+    reached from other threads is decided by how it was allocated (janet_abstract_threaded).  The two must agree."""
+    rule = "C08-THREADFLAG"
+    chk.rule(rule, "a channel allocated as a shared (threaded) abstract is initialised as threaded, and only such a channel is")
+    n = 0
+    for fn in prog.tus["ev.c"].funcs.values():
+        inits = [c for c in fn.calls("janet_chan_init") if len(c.args) == 3]
+        if not inits:
+            continue
+        allocs = {}
+        for x in fn.nodes:
+            tgt = rhs = None
+            if x.k == "vardecl" and x.kids:
+                tgt, rhs = x.name, strip_casts(x.kids[0])
+            elif x.k == "asg" and x.op == "=" and is_ref(x.kids[0]):
+                tgt, rhs = x.kids[0].name, strip_casts(x.kids[1])
+            if tgt and rhs is not None and rhs.k == "call" and rhs.callee in ("janet_abstract", "janet_abstract_threaded"):
+                allocs.setdefault(tgt, set()).add(rhs.callee)
+        for c in inits:
+            obj = strip_casts(c.args[0])
+            kinds = allocs.get(obj.name) if is_ref(obj) else None
+            if not kinds or len(kinds) != 1:
+                continue      # unmarshal picks the allocation at run time; not decided here
+            n += 1
+            chk.analysed(fn)
+            chk.instance(rule)
+            kind = next(iter(kinds))
+            flag = strip_casts(c.args[2]).v
+            want = 1 if kind == "janet_abstract_threaded" else 0
+            if flag is not None and (flag != 0) == (want != 0):
+                chk.ok(rule, "%s: %s and is_threaded = %d" % (fn.name, kind, flag))
+            else:
+                chk.violation(rule, "ev.c", fn.name, "init:%s" % kind, c.loc,
+                              "`%s` initialises a channel allocated with %s as %s: %s" % (
+                                  c.text()[:50], kind, "unthreaded" if want else "threaded",
+                                  "it is shared between threads by pointer but takes no lock and does not copy its values"
+                                  if want else "it packs values and locks although it cannot leave its thread"))
+    chk.floor(rule, 4, n)
+
+
+def _withdraw_rule(chk, prog):
+    """A parked channel operation leaves (fiber, &janet_vm) in the channel's pending queue.  Entries are only ever
+    removed by the opposite operation, which then posts to that VM.  For a thread channel the VM belongs to another
+    thread: if the waiter gave up and its thread has exited, the entry points at a dead VM.  So somebody on the
+    abandon / teardown side has to withdraw registrations."""
+    rule = "C08-WITHDRAW"
+    chk.rule(rule, "registrations (fiber, thread VM) left in a thread channel's pending queues are withdrawn when the wait is abandoned or the thread tears down")
+    tu = prog.tus["ev.c"]
+    removers = []
+    for fn in tu.funcs.values():
+        for c in fn.calls("janet_q_pop"):
+            if c.args and any(y.k == "mem" and y.field in ("read_pending", "write_pending") for y in c.args[0].walk()):
+                removers.append(fn)
+                break
+    if len(removers) < 3:
+        raise AnalysisBroken("only %d functions pop the pending queues" % len(removers))
+    # a withdrawal has to pick entries by whose they are: it compares an entry's fiber or thread with the one leaving
+    withdrawers = []
+    for fn in prog.all_funcs():
+        if fn.calls("janet_schedule", "janet_schedule_signal", "janet_cancel", "janet_ev_post_event"):
+            continue      # wakes the entries it finds: a consumer (close), not a withdrawal
+        for x in fn.nodes:
+            if x.k == "bin" and x.op in ("==", "!="):
+                for side in x.kids:
+                    y = strip_casts(side)
+                    if y.k == "mem" and y.rec == "JanetChannelPending" and y.field in ("thread", "fiber"):
+                        withdrawers.append(fn)
+    regs = []
+    for fn in tu.funcs.values():
+        for x in fn.nodes:
+            if x.k == "asg" and x.op == "=" and x.kids[0].k == "mem" and x.kids[0].field == "thread" and x.kids[0].rec == "JanetChannelPending":
+                regs.append((fn, x))
+    if len(regs) < 2:
+        raise AnalysisBroken("registration sites (pending.thread = &janet_vm) not found")
+    for fn, x in regs:
+        chk.analysed(fn)
+        chk.instance(rule)
+        if withdrawers:
+            chk.ok(rule, "%s: registration can be withdrawn by %s" % (fn.name, withdrawers[0].name))
+        else:
+            chk.violation(rule, "ev.c", fn.name, "pending.thread", x.loc,
+                          "`%s` registers this thread's VM in the channel, and no function selects pending entries by their fiber or thread in order to remove "
+                          "them (only %s pop the queues, on the opposite operation): once the waiter has given up and its thread has exited, the next give / take posts to a VM that "
+                          "no longer exists" % (x.text()[:40], ", ".join(sorted(set(f.name for f in removers)))))
